@@ -4,14 +4,38 @@ import traceback
 STAGES = ("join_returns", "restructure_loop", "restructure_branch")
 
 
-def make_scfg(succ, block_factory=None):
+GEN_LIKE = ["synth_fill_block_0", "synth_fill_block_1", "synth_tail_block_0", "synth_tail_block_1",
+            "synth_asign_block_0", "synth_asign_block_1", "synth_asign_block_2", "synth_head_block_0",
+            "synth_head_block_1", "synth_exit_block_0", "synth_exit_latch_block_0", "synth_return_block_0",
+            "loop_region_0", "loop_region_1", "head_region_0", "head_region_1", "branch_region_0",
+            "branch_region_1", "tail_region_0", "tail_region_1", "meta_region_1", "__scfg_control_var_0__",
+            "synth_tail_block_2", "synth_fill_block_2", "branch_region_2", "head_region_2"]
+
+
+def namer_for(succ, kind):
+    """Block names of an input graph: str(i), or - for payload kinds ending in '-gn' - names that look
+    like the generator's own (a deterministic choice per graph)."""
+    if not str(kind).endswith("-gn"):
+        return str
+    import random
+
+    rng = random.Random(repr(succ))
+    pool = list(GEN_LIKE)
+    rng.shuffle(pool)
+    # consecutive indices of one kind are the interesting case: keep some neighbours together
+    pool.sort(key=lambda n: (rng.random() < 0.5, n))
+    names = pool[:len(succ)] + [str(i) for i in range(len(succ))][len(pool):]
+    return lambda i: names[int(i)]
+
+
+def make_scfg(succ, block_factory=None, namer=str):
     from numba_scfg.core.datastructures.scfg import SCFG
     from numba_scfg.core.datastructures.basic_block import BasicBlock
 
     g = {}
     for i, s in enumerate(succ):
-        name = str(i)
-        jt = tuple(str(j) for j in s)
+        name = namer(i)
+        jt = tuple(namer(j) for j in s)
         g[name] = (block_factory(name, jt) if block_factory
                    else BasicBlock(name=name, _jump_targets=jt))
     return SCFG(g)
